@@ -1345,8 +1345,10 @@ theorem wf_indentImpl (norm : String → String) (hn : ∀ s, nfc (norm s) = tru
   · simp only [Res.all_bind]
     refine Res.all_of_forall _ fun _ => Res.all_of_forall _ fun _ => ?_
     split
-    · trivial
     · exact wf_stdStringVal norm hn _
+    · split
+      · trivial
+      · exact wf_stdStringVal norm hn _
 
 /-! ## set.go -/
 
